@@ -127,6 +127,10 @@ def rpc(case, res):
             for p in b.forwarded():
                 S.reply(p.owner, p, rng.choice(["result", "error"]))
             b.settle()
+        # whatever was asked, with or without id: once everybody is gone the daemon holds what it held before
+        st = S.close_all()
+        S.check_idle_baseline(st)
+        S.shutdown()
         return S.ops[:25]
     sim_case(case, res, body)
 
